@@ -2,6 +2,7 @@ package client
 
 import (
 	"fmt"
+	"sync"
 	"time"
 
 	pkts "github.com/energomonitor/bisquitt/packets"
@@ -14,6 +15,9 @@ const maxPingrespWait = time.Minute
 
 type sleepTransaction struct {
 	*transactions.TransactionBase
+	// lock serializes the timer callbacks (resendDisconnect, wakeup) with the
+	// packet handlers (Disconnect, Pingresp) called from the receive loop.
+	lock                sync.Mutex
 	client              *Client
 	log                 util.Logger
 	disconnect          *pkts1.Disconnect
@@ -63,6 +67,9 @@ func (t *sleepTransaction) Fail(e error) {
 }
 
 func (t *sleepTransaction) Sleep() error {
+	t.lock.Lock()
+	defer t.lock.Unlock()
+
 	state := t.client.state.Get()
 	switch state {
 	case util.StateActive:
@@ -83,6 +90,13 @@ func (t *sleepTransaction) Sleep() error {
 }
 
 func (t *sleepTransaction) resendDisconnect() {
+	t.lock.Lock()
+	defer t.lock.Unlock()
+
+	if t.state != awaitingDisconnect || t.disconnect == nil {
+		// The DISCONNECT reply was received while the timer was firing.
+		return
+	}
 	t.disconnectResendNum++
 	if t.disconnectResendNum > t.retryCount {
 		t.log.Debug("DISCONNECT reply timeout.")
@@ -98,6 +112,9 @@ func (t *sleepTransaction) resendDisconnect() {
 }
 
 func (t *sleepTransaction) Disconnect(disconnect *pkts1.Disconnect) {
+	t.lock.Lock()
+	defer t.lock.Unlock()
+
 	if t.state != awaitingDisconnect {
 		t.log.Debug("Unexpected packet in %d: %v", t.state, disconnect)
 		return
@@ -108,6 +125,9 @@ func (t *sleepTransaction) Disconnect(disconnect *pkts1.Disconnect) {
 }
 
 func (t *sleepTransaction) Pingresp(pingresp *pkts1.Pingresp) {
+	t.lock.Lock()
+	defer t.lock.Unlock()
+
 	if t.state != awaitingPingresp {
 		t.log.Debug("Unexpected packet in %d: %v", t.state, pingresp)
 		return
@@ -129,6 +149,9 @@ func (t *sleepTransaction) startSleep() {
 }
 
 func (t *sleepTransaction) wakeup() {
+	t.lock.Lock()
+	defer t.lock.Unlock()
+
 	t.client.setState(util.StateAwake)
 	t.log.Debug("Awake")
 	t.state = awaitingPingresp
